@@ -70,6 +70,11 @@ type recIPAM struct {
 	rel [][]relOpt
 	rba []string
 	rha []string
+	// failure injection: when failMask != 0 the next ReleaseIPs call releases only the options whose bit is set
+	// (option k -> bit k%63; bit 63 only marks the mask as set) and returns an error
+	failMask uint64
+	failed   bool
+	done     []relOpt
 }
 
 func (f *recIPAM) ReleaseIPs(ctx context.Context, opts ...ipam.ReleaseOptions) ([]cnet.IP, []ipam.ReleaseOptions, error) {
@@ -82,6 +87,17 @@ func (f *recIPAM) ReleaseIPs(ctx context.Context, opts ...ipam.ReleaseOptions) (
 		call = append(call, ro)
 	}
 	f.rel = append(f.rel, call)
+	if f.failMask != 0 {
+		var released []ipam.ReleaseOptions
+		for k, o := range opts {
+			if f.failMask&(1<<(uint(k)%63)) != 0 {
+				released = append(released, o)
+				f.done = append(f.done, call[k])
+			}
+		}
+		f.failed = true
+		return nil, released, fmt.Errorf("injected datastore error")
+	}
 	return nil, opts, nil
 }
 
@@ -436,17 +452,23 @@ func (r *runner) apply(e event) {
 }
 
 type syncObs struct {
-	Rel  [][]relOpt
-	RBA  []string
-	RHA  []string
-	Dump node.VerifC23Dump
-	Err  string
+	Failed bool
+	Done   []relOpt
+	Rel    [][]relOpt
+	RBA    []string
+	RHA    []string
+	Dump   node.VerifC23Dump
+	Err    string
 }
 
-func (r *runner) sync() syncObs {
+func (r *runner) sync() syncObs { return r.syncWith(0) }
+
+func (r *runner) syncWith(failMask uint64) syncObs {
 	r.ip.rel, r.ip.rba, r.ip.rha = nil, nil, nil
+	r.ip.failMask, r.ip.failed, r.ip.done = failMask, false, nil
 	err := r.ctl.Sync()
-	o := syncObs{Rel: r.ip.rel, RBA: r.ip.rba, RHA: r.ip.rha, Dump: r.ctl.Dump()}
+	r.ip.failMask = 0
+	o := syncObs{Rel: r.ip.rel, RBA: r.ip.rba, RHA: r.ip.rha, Dump: r.ctl.Dump(), Failed: r.ip.failed, Done: r.ip.done}
 	if err != nil {
 		o.Err = err.Error()
 	}
@@ -542,6 +564,17 @@ func (r *runner) obsCoq(o syncObs) (string, bool) {
 	dump := fmt.Sprintf("(mkD [%s] [%s] [%s] [%s] [%s] [%s] [%s] [%s] [%s] [%s] %v)", sortedJoin(blocks), sortedJoin(allocs),
 		sortedJoin(bynode), sortedJoin(dirty), sortedJoin(byhandle), sortedJoin(conf), sortedJoin(nbb), sortedJoin(bbn),
 		sortedJoin(empty), sortedJoin(tracker), d.Full)
+	if o.Failed {
+		var done []string
+		for _, x := range o.Done {
+			b, ord := ipNums(x.IP)
+			done = append(done, fmt.Sprintf("mkR %d %d %d %d", handleNum(x.Handle), b, ord, x.Seq))
+		}
+		if len(rba) > 0 || len(rha) > 0 {
+			malformed = true // a failed ReleaseIPs ends the sync
+		}
+		return fmt.Sprintf("mkSF [%s] %s [%s]", strings.Join(rel, "; "), dump, strings.Join(done, "; ")), malformed
+	}
 	return fmt.Sprintf("mkS [%s] [%s] [%s] %s", strings.Join(rel, "; "), strings.Join(rba, "; "), strings.Join(rha, "; "), dump), malformed
 }
 
@@ -841,7 +874,11 @@ func (g *gen) history(n int) []event {
 		case x < 79:
 			emit(event{Kind: "poddeleted", N: g.r.n(g.nNodes + 1)})
 		default:
-			emit(event{Kind: "sync"})
+			if g.r.p(35) {
+				emit(event{Kind: "syncfail", D: g.r.n(1 << 20)})
+			} else {
+				emit(event{Kind: "sync"})
+			}
 		}
 	}
 	emit(event{Kind: "full"})
@@ -863,6 +900,9 @@ type line struct {
 // address and blocks: nothing of it may be released; variant 1: the Calico node is gone from the datastore, the cache
 // lags (release is legitimate); variant 2: an empty second block past the grace period (releaseUnusedBlocks path).
 func scenarioCase(k int) line {
+	if k >= 3 {
+		return rolloverCase(k)
+	}
 	g := 900
 	tun := attrsT{Node: 1, Tun: true}
 	evs := []event{{Kind: "cnodesync", N: 1, Present: true, NonK8s: true}}
@@ -877,6 +917,25 @@ func scenarioCase(k int) line {
 		event{Kind: "block", N: 3, Block: &blockT{Aff: 1}}, event{Kind: "sync"},
 		event{Kind: "tick", D: 901}, event{Kind: "sync"}, event{Kind: "full"}, event{Kind: "sync"})
 	return execute(uint64(k), &g, evs, map[string]bool{"scenario": true, "non-k8s-node": true, "grace:900": true})
+}
+
+// A Kubernetes node goes away (tunnel address becomes a confirmed leak), the ReleaseIPs call fails so the leak rolls
+// over in confirmedLeaks, the node re-registers; variant 3: the next sync looks at the node again (full scan) - the
+// final re-validation must resurrect the tunnel address; variant 4: the next sync does not look at the node.
+func rolloverCase(k int) line {
+	g := 900
+	tun := attrsT{Node: 1, Tun: true}
+	evs := []event{{Kind: "knode", N: 1, Present: true}, {Kind: "cnodeapi", N: 1, Present: true}, {Kind: "cnodesync", N: 1, Present: true},
+		{Kind: "block", N: 1, Block: &blockT{Aff: 1, Allocs: []ballocT{{Ord: 0, Handle: 21, At: tun, Seq: 1}}}},
+		{Kind: "sync"},
+		{Kind: "knode", N: 1}, {Kind: "cnodeapi", N: 1}, {Kind: "cnodesync", N: 1}, {Kind: "full"},
+		{Kind: "syncfail", D: 0},
+		{Kind: "knode", N: 1, Present: true}, {Kind: "cnodeapi", N: 1, Present: true}, {Kind: "cnodesync", N: 1, Present: true}}
+	if k == 3 {
+		evs = append(evs, event{Kind: "full"})
+	}
+	evs = append(evs, event{Kind: "sync"}, event{Kind: "full"}, event{Kind: "sync"})
+	return execute(uint64(k), &g, evs, map[string]bool{"scenario": true, "tunnel-rollover": true, "grace:900": true})
 }
 
 func runCase(cs uint64) line {
@@ -977,6 +1036,33 @@ func batchCut() map[string]any {
 	return res
 }
 
+// An allocation re-allocated in place (same handle, same address, new sequence number) with a DIFFERENT node attribute
+// - two block updates compacted into one by a syncer resync - and then freed.  Reports whether allocationsByNode still
+// holds the allocation under the old node although no block contains it, and what a sync then releases.
+func zombieProbe() map[string]any {
+	g := 900
+	run := newRunner(&g)
+	mk := func(node int, seq uint64) *blockT {
+		return &blockT{Aff: 1, Allocs: []ballocT{{Ord: 0, Handle: 1, At: attrsT{Node: node, Pod: 1}, Seq: seq}}}
+	}
+	run.apply(event{Kind: "block", N: 1, Block: mk(1, 1)})
+	run.apply(event{Kind: "block", N: 1, Block: mk(2, 2)})
+	run.apply(event{Kind: "block", N: 1, Block: &blockT{Aff: 1}})
+	d := run.ctl.Dump()
+	res := map[string]any{"tracked_allocations": len(d.Allocs), "allocations_by_node": d.ByNode}
+	stale := 0
+	for _, ids := range d.ByNode {
+		stale += len(ids)
+	}
+	res["stale_entries"] = stale - len(d.Allocs)
+	// an unrelated allocation elsewhere, so that the handle tracker is not empty
+	run.apply(event{Kind: "block", N: 2, Block: &blockT{Aff: 2, Allocs: []ballocT{{Ord: 0, Handle: 9, At: attrsT{Node: 2}, Seq: 1}}}})
+	run.apply(event{Kind: "full"})
+	o := run.sync()
+	res["release_ips_after_sync"] = o.Rel
+	return res
+}
+
 func execute(cs uint64, grace *int, evs []event, tags map[string]bool) line {
 	run := newRunner(grace)
 	var steps, keys []string
@@ -984,8 +1070,19 @@ func execute(cs uint64, grace *int, evs []event, tags map[string]bool) line {
 	released, rbaSeen, rhaSeen, candidate, malformed := false, false, false, false, false
 	nsync := 0
 	for _, e := range evs {
-		if e.Kind == "sync" {
-			o := run.sync()
+		if e.Kind == "sync" || e.Kind == "syncfail" {
+			var o syncObs
+			if e.Kind == "syncfail" {
+				o = run.syncWith(uint64(e.D) | 1<<63)
+			} else {
+				o = run.sync()
+			}
+			if o.Failed {
+				tags["release-failed"] = true
+				if len(o.Done) > 0 && len(o.Done) < len(o.Rel[0]) {
+					tags["release-partial"] = true
+				}
+			}
 			nsync++
 			s, bad := run.obsCoq(o)
 			malformed = malformed || bad
@@ -1078,19 +1175,24 @@ func main() {
 				emit(*one)
 				return
 			}
+			var zp map[string]any
+			synctest.Test(t, func(t *testing.T) { zp = zombieProbe() })
+			if err := enc.Encode(map[string]any{"zombie": zp}); err != nil {
+				panic(err)
+			}
 			var bc map[string]any
 			synctest.Test(t, func(t *testing.T) { bc = batchCut() })
 			if err := enc.Encode(map[string]any{"batchcut": bc}); err != nil {
 				panic(err)
 			}
-			for k := 0; k < 3 && k < *n; k++ {
+			for k := 0; k < 5 && k < *n; k++ {
 				var l line
 				synctest.Test(t, func(t *testing.T) { l = scenarioCase(k) })
 				if err := enc.Encode(l); err != nil {
 					panic(err)
 				}
 			}
-			for i := 3; i < *n; i++ {
+			for i := 5; i < *n; i++ {
 				cs := r.next()
 				if cs == 0 {
 					cs = 1
